@@ -5,7 +5,7 @@
 (O) model py_init_member / py_is_dataclass / "module raises"   vs  the same source executed by CPython
                                         (cls.__dict__['__init__'], inspect.signature, dataclasses.is_dataclass)
 direct: Griffe's __init__ member vs CPython's, label vs is_dataclass, hand-written __init__ untouched, non-dataclass
-        classes get none — outside the known-gap predicates G1..G8 / G10 as evaluated by the extracted model.
+        classes get none — outside the known-gap predicates G2 G3 G4 G6 G7 as evaluated by the extracted model (F10: layout predicate in this module).
 """
 from __future__ import annotations
 
@@ -18,9 +18,9 @@ import sys
 ID = "C18"
 LEVEL_TEXT = ("Theorems over all class tables (any number of classes, any bodies, any MRO lists): the __init__ Griffe synthesises for a decorated "
               "class without a hand-written __init__ has exactly the parameters (names, order, kind, required-ness) of the __init__ CPython's "
-              "dataclasses module generates, modulo eight decidable known-gap predicates (findings F1-F8), each refuted by a computed witness; "
+              "dataclasses module generates, modulo five decidable known-gap predicates (findings F2, F3, F4, F6, F7; F1, F5, F8, F9 were repaired in the code), each refuted by a computed witness; "
               "for single-inheritance tables of any depth the multiple-inheritance gap (F6) is proved impossible (CPython's accumulated field dict = flat reverse-MRO collection); a hand-written __init__ is kept by both; an "
-              "undecorated class gets none; the 'dataclass' label equals dataclasses.is_dataclass unless the class has a hand-written __init__ (F9). "
+              "undecorated class gets none; the 'dataclass' label equals dataclasses.is_dataclass for every class. "
               "The model is tied to extensions/dataclasses.py by differential runs on generated hierarchies loaded from files with griffe.load, "
               "and the CPython model to real execution of the same source.")
 LEVEL_NOTE = ("Trusted: Coq kernel, extraction, the renderer structure->source text in this module, CPython 3.12 as authority. The MRO of each class "
@@ -42,7 +42,7 @@ ASSUMPTIONS = ["Class.mro() equals CPython's __mro__ on the generated hierarchie
 
 NAMES = 6
 HDR = "from dataclasses import dataclass, field, KW_ONLY, InitVar\nimport dataclasses\nfrom typing import ClassVar\n"
-FINDINGS = ["C18-F1", "C18-F2", "C18-F3", "C18-F4", "C18-F5", "C18-F6", "C18-F7", "C18-F8"]
+FINDINGS = ["C18-F2", "C18-F3", "C18-F4", "C18-F6", "C18-F7"]     # order of the model's `gaps` list: [G2; G3; G4; G6; G7]
 GK = {"positional or keyword": "PK", "keyword-only": "KO"}
 IK = {inspect.Parameter.POSITIONAL_OR_KEYWORD: "PK", inspect.Parameter.KEYWORD_ONLY: "KO"}
 
@@ -385,14 +385,12 @@ def rand_value(rng, want_default, gap_ok=True):
     if r < 0.55:
         return ("plain",) if want_default else ("none",)
     init = rng.choice([None, None, None, True, False])
-    kw = rng.choice([None, None, None, True, True, False if gap_ok else None])
+    kw = rng.choice([None, None, None, True, True, False])
     if want_default:
         d, f = rng.choice([(True, False), (True, False), (False, True)])
     else:
         d, f = False, False
     o = rng.random() < 0.4
-    if not gap_ok and init is None and kw is None and not d and not f:
-        o = True
     return ("field", init, kw, d, f, o)
 
 
@@ -457,7 +455,7 @@ def rand_table(rng, maxn=4, quiet=False):
         decorated = rng.random() < 0.82
         dec = None
         if decorated:
-            init = rng.choice([None] * 6 + [True, True] + ([] if quiet else [False]))
+            init = rng.choice([None] * 6 + [True, True, False])
             kw = rng.choice([None] * 5 + [True, True, False])
             dec = (init, kw)
         hw = None
@@ -655,7 +653,7 @@ def check_tables(ctx, tables, stream, use_model=True, mirror=False, loads=None):
                 ctx.property_failure(case, {"class": i, "non-dataclass class got an __init__": g_mem})
             gaps = None
             if use_model:
-                m_g, m_py, m_glabel, m_pylabel, m_gaps, m_g10 = per[i]
+                m_g, m_py, m_glabel, m_pylabel, m_gaps = per[i]
                 if m_g != norm_member(g_mem) and i not in f10:
                     ctx.tie_failure("correspondence", "g_init_member(model) vs members['__init__'] after griffe.load", {"class": i, "model": m_g, "impl": g_mem}, case)
                 if bool(m_glabel) != g_label and i not in f10:
@@ -666,9 +664,8 @@ def check_tables(ctx, tables, stream, use_model=True, mirror=False, loads=None):
                     if bool(m_pylabel) != cv[i][1]:
                         ctx.tie_failure("oracle", "py_is_dataclass(model) vs dataclasses.is_dataclass", {"class": i, "model": m_pylabel, "cpython": cv[i][1]}, case)
                 gaps = [bool(x) for x in m_gaps]
-                g10 = bool(m_g10)
             elif mirror:
-                gaps, g10 = py_gaps(table, mros, i)
+                gaps = py_gaps(table, mros, i)
             if cv is None:
                 continue
             c_mem, c_isdc = cv[i]
@@ -691,7 +688,7 @@ def check_tables(ctx, tables, stream, use_model=True, mirror=False, loads=None):
                         ctx.observe("gap-free equal: kw-only params", sum(1 for p in c_mem[1] if p[1] == "KO"))
             if g_label != c_isdc:
                 ctx.observe("outcome", "label differs")
-                ctx.property_failure(case, {"class": i, "griffe label": g_label, "is_dataclass": c_isdc}, finding=("C18-F9" if g10 else "C18-F10" if i in f10 else None) if gaps is not None else None)
+                ctx.property_failure(case, {"class": i, "griffe label": g_label, "is_dataclass": c_isdc}, finding="C18-F10" if (gaps is not None and i in f10) else None)
             elif c_isdc and c["dec"] is None:
                 ctx.observe("outcome", "inherited label present")
 
@@ -712,8 +709,7 @@ def py_gaps(table, mros, i):
                     return True
         return False
 
-    g1 = any(b["dec"][0] is False for b in chain)
-    g2 = g5 = g7 = g8 = False
+    g2 = g7 = False
     excl, incl = set(), set()
     for b in chain:
         kw = b["dec"][1] is True
@@ -737,17 +733,12 @@ def py_gaps(table, mros, i):
                         excl.add(n)
                     else:
                         incl.add(n)
-                        if kw and v[2] is False:
-                            g5 = True
-                    if v[1] is None and v[2] is None and not (v[3] or v[4] or v[5]):
-                        g8 = True
                 else:
                     incl.add(n)
     g3 = bool(excl & incl)
     g4 = any(b["hw"] for b in chain)
     g6 = any(len(table[j]["bases"]) > 1 for j in mros[i] + [i])    # coarser than the model's G6
-    g10 = c["dec"] is None and c["hw"] is not None and any(table[j]["dec"] is not None for j in mros[i])
-    return [g1, g2, g3, g4, g5, g6, g7, g8], g10
+    return [g2, g3, g4, g6, g7]
 
 
 # ---------------------------------------------------------------- witnesses of the findings (replayed on the implementation each run)
@@ -761,18 +752,20 @@ def K(dec, body, bases=(), hw=None):
 
 D0 = (None, None)
 WITNESSES = {
-    "C18-F1": ([K((False, None), [A(0, v=("plain",))]), K(D0, [A(1, v=("plain",))], [0])], 1),
     "C18-F2": ([K(D0, [A(0, v=("plain",))]), K(D0, [A(0), A(1, v=("plain",))], [0])], 1),
     "C18-F3": ([K(D0, [A(0, v=("plain",))]), K(D0, [A(0, v=("field", False, None, True, False, False)), A(1, v=("plain",))], [0])], 1),
     "C18-F4": ([K(D0, [A(0)], hw=[80]), K(D0, [A(1, v=("plain",))], [0])], 1),
-    "C18-F5": ([K((None, True), [A(0, v=("field", None, False, True, False, False)), A(1, v=("plain",))])], 0),
     "C18-F6": ([K(D0, [A(0)]), K(D0, [A(0, v=("plain",))], [0]), K(D0, [A(1, v=("plain",))], [0]), K(D0, [], [2, 1])], 3),
     "C18-F7": ([K(D0, [("annprop", 0)])], 0),
-    "C18-F8": ([K(D0, [A(0, v=("field", None, None, False, False, False))])], 0),
-    "C18-F9": ([K(D0, [A(0, v=("plain",))]), K(None, [], [0], hw=[])], 1),
 }
-
-
+# witnesses of the repaired defects (former F1, F5, F8, F9): corpus cases that must PASS now; no classifier is left for them
+REPAIRED = {
+    "former C18-F1 (init=False)": [K((False, None), [A(0, v=("plain",))]), K(D0, [A(1, v=("plain",))], [0])],
+    "former C18-F5 (field(kw_only=False))": [K((None, True), [A(0, v=("field", None, False, True, False, False)), A(1, v=("plain",))]),
+                                             K(D0, [A(2), A(91, "kwonly"), A(3, v=("field", None, False, False, False, True)), A(4)], [])],
+    "former C18-F8 (bare field())": [K(D0, [A(0, v=("field", None, None, False, False, False))])],
+    "former C18-F9 (label with own __init__)": [K(D0, [A(0, v=("plain",))]), K(None, [], [0], hw=[])],
+}
 F10_WITNESS = ([K(D0, [A(0, v=("plain",))]), K(D0, [A(1, v=("plain",))], [0])], {"where": ["ma", "mz"], "imp": "wild_shadow"}, 1)
 
 
@@ -787,15 +780,11 @@ def replay_witnesses(ctx):
         src, hw_line = render(table)
         gv = griffe_view(ctx, table, hw_line, None)
         cv, _ = cpython_view(src, len(table))
-        if fid == "C18-F9":
-            ctx.witness(fid, cv is not None and gv[i][1] != cv[i][1])
-        else:
-            ctx.witness(fid, cv is not None and norm_member(gv[i][0]) != norm_member(cv[i][0]))
+        ctx.witness(fid, cv is not None and norm_member(gv[i][0]) != norm_member(cv[i][0]))
         if ctx.driver is not None:
             r = ctx.model([enc_table(table, mros)])[0]
             per = r[2][i]
-            k = int(fid.split("F")[1])
-            flagged = bool(per[5]) if k == 9 else bool(per[4][k - 1])
+            flagged = bool(per[4][FINDINGS.index(fid)])
             if not flagged:
                 ctx.tie_failure("harness", f"witness of {fid} is not inside its own gap predicate", {"model": per}, case_json(table, None))
 
@@ -835,7 +824,8 @@ def evolve(rng, table):
 
 def explore(ctx):
     replay_witnesses(ctx)
-    check_histories(ctx, ctx.budget(120, 1200))
+    check_tables(ctx, list(REPAIRED.values()), "corpus: witnesses of repaired defects (must pass)")
+    check_histories(ctx, ctx.budget(120, 800))
     sd = systematic_decorators()
     sf = systematic_forms()
     if ctx.quick:
